@@ -1,7 +1,7 @@
 """Exploration plans per property: which harness families / option sets are
 enumerated in the quick and thorough tiers, with which build variant."""
 
-HARNESS_SOURCES = ["engine.c", "ref.c", "qsx.c", "lpfam.c", "h_inst.c", "h_hist.c", "h_basis.c", "h_copy.c", "h_meta.c", "h_io.c", "h_esolver.c", "families.c"]  # keep in sync with harness/families.c
+HARNESS_SOURCES = ["engine.c", "ref.c", "qsx.c", "lpfam.c", "h_inst.c", "h_hist.c", "h_basis.c", "h_copy.c", "h_meta.c", "h_io.c", "h_esolver.c", "h_factor.c", "families.c"]  # keep in sync with harness/families.c
 
 
 def lp(id, variant, fam, cfg="default", weight=1, **kw):
@@ -39,7 +39,7 @@ PLANS["C01"] = {
         lp("S0-default", "prodl1", "S0", "default", weight=2),
         lp("S1-default", "prodl1", "S1", "default", weight=6),
         lp("S3-default", "prodl1", "S3", "default", weight=6),
-        lp("SX-default", "prodl1", "SX", "default", weight=4),
+        lp("SXq-default-fullladder", "prod", "SXq", "default", weight=8),
         lp("S0c-k2", "prodl1", "S0c", "k2", weight=10),
         lp("T-k2", "prod", "T", "k2", weight=4),
         lp("S0c-full-512", "prodl1", "S0c", "full", weight=6, range=[0, 1200]),
@@ -397,5 +397,36 @@ PLANS["C20"] = {
     "evidence": {"states": ["histories", "invalid_calls", "instances"], "transitions": ["api_transitions", "executions"], "nontrivial": ["histories", "invalid_calls", "instances_nontrivial"]},
     "assumptions": ["calls documented to write to a caller-supplied FILE*/filename are not issued with stdout as target",
                     "message fragmentation (one handler call per character of an offending token in the LP reader) is not flagged: no byte bypasses the handler"] + HIST_ASSUME,
+}
+
+def fac(id, variant, opts, weight=1, family="factor", **kw):
+    return fam(id, variant, family, opts, weight=weight, crash_props=["C17", "C13"], **kw)
+
+
+PLANS["C13"] = {
+    "title": "LU-based solves are exact: B^-1 B = I for every basis and update history",
+    "rule": ("family 'factor' (component level, mpq_ILLfactor* driven with the protocol of basis.c): item = (matrix, parameter setting); every square matrix of the stated dimension over the stated alphabet, or 12 structured patterns "
+             "(triangular, bidiagonal, arrow, dense, singletons, tridiagonal, blocks, rank-deficient, cyclic, Hessenberg, mixed) x 3 permutations x value variants over {1,-1,2,1/3} for larger dimensions; for every matrix the library "
+             "reports non-singular EVERY sequence of <= upd column replacements (position x candidate column) is executed (ftran_update then ILLfactor_update) under the parameter settings default / ETAMAX=1 / ETAMAX=2 / minimal space "
+             "multipliers / dense tail forced; oracle: independent exact Gauss: singular iff reported singular; after every factor/update ftran and btran of every unit vector and dense right-hand sides multiply back exactly with the "
+             "CURRENT matrix; a singular replacement is reported, refactor requests are honoured as basis.c does; 'chain' adds one chain of N replacements. family 'binv' (API level): every LP of the family x primal/dual x scaling x "
+             "pricing x (complete run + iteration limits) and single pivot-ins after an optimal solve: row_i(B^-1) B = e_i and tableau row = row_i(B^-1) [A|logicals] with the reported basis order, through the in-situ factorization "
+             "(with its accumulated updates), the public accessors and the exported lib functions; non-trivial = at least one update / simplex iteration happened"),
+    "quick": [fac("factor-d2-u2", "prod", {"dim": 2, "upd": 2, "set": "012345"}, weight=3), fac("factor-d3pm-u1", "prod", {"dim": 3, "alpha": "pm", "upd": 1, "set": "012345"}, weight=5),
+              fac("factor-d4-u1", "prod", {"dim": 4, "upd": 1, "set": "5123"}, weight=2), fac("factor-d5-u1", "prod", {"dim": 5, "upd": 1}, weight=1), fac("factor-d8-u1", "prod", {"dim": 8, "upd": 1}, weight=1),
+              fac("factor-d24-chain-san", "san", {"dim": 24, "upd": 0, "chain": 200, "nvar": 2, "set": "512"}, weight=2),
+              fac("binv-T", "prod", {"fam": "T", "price": "both", "lims": "1,2,3,5,8,13,21,34,55", "tscale": 30}, weight=2, family="binv", timeout=300),
+              fac("binv-S0q1", "prod", {"fam": "S0q1"}, weight=2, family="binv", timeout=300)],
+    "thorough": [fac("factor-d3-u1", "prod", {"dim": 3, "upd": 1, "set": "5123"}, weight=6), fac("factor-d3pm-u2", "prod", {"dim": 3, "alpha": "pm", "upd": 2, "set": "5123"}, weight=7),
+                 fac("factor-d2-u3", "prod", {"dim": 2, "upd": 3, "set": "5123"}, weight=4), fac("factor-d4-u2", "prod", {"dim": 4, "upd": 2, "set": "5"}, weight=6),
+                 fac("factor-d6-u2", "prod", {"dim": 6, "upd": 2, "nvar": 4}, weight=1), fac("factor-d8-u2", "prod", {"dim": 8, "upd": 2, "nvar": 4}, weight=4),
+                 fac("factor-d24-u1", "prod", {"dim": 24, "upd": 1, "nvar": 4, "set": "52"}, weight=3), fac("factor-d8-chain", "prod", {"dim": 8, "upd": 0, "chain": 400, "nvar": 4, "set": "01234", "mat": "pat"}, weight=1),
+                 fac("factor-d3pm-u1-san", "san", {"dim": 3, "alpha": "pm", "upd": 1, "set": "5123"}, weight=6),
+                 fac("binv-S0q", "prod", {"fam": "S0q"}, weight=7, family="binv", timeout=300), fac("binv-T-san", "san", {"fam": "T", "price": "both", "tscale": 30}, weight=3, family="binv", timeout=600)],
+    "bounds": {"quick": "all 2x2 matrices over {-1,0,1,2} x all update sequences of length <= 2 x 6 settings; all 3x3 over {-1,0,1} x <= 1 update x 6 settings; all 4x4 over {0,1} x <= 1 update; patterns of dimension 5, 8; chains of 200 updates at dimension 24 (sanitizer build); binv on T and S0q1",
+               "thorough": "all 3x3 over {-1,0,1,2} x <= 1 update; 3x3 over {-1,0,1} x <= 2 updates; 2x2 x <= 3 updates; 4x4 over {0,1} x <= 2 updates; patterns up to dimension 24; binv on S0q"},
+    "evidence": {"states": ["instances"], "transitions": ["executions"], "nontrivial": ["instances_nontrivial"]},
+    "assumptions": ["the library may refuse an update and ask for refactorization; the harness then refactors as basis.c does and continues",
+                    "mpq_QSget_binv_row / tableau_row may fail when no factorization or optimal solution is current: counted, not flagged"] + LP_ASSUME,
 }
 NOT_YET = {}
